@@ -10,6 +10,7 @@ combinations, exact Kronecker-triangular factors, base `_svd` on exact data, the
 import json
 import logging
 import math
+import os
 import random
 import warnings
 from fractions import Fraction
@@ -156,6 +157,143 @@ def robust(it):
     return True
 
 
+def _retry_pd(gen, tries=60):
+    """Call gen() until the dense matrix it returns (first component) has a separated, well-conditioned spectrum."""
+    last = None
+    for _ in range(tries):
+        last = gen()
+        if _gap_ok(last[0], thr=0.02):
+            return last
+    return last
+
+
+def approx_diag_instances(rng, dtype, batch, n):
+    """PD operators whose `_approx_diagonal()` differs from the exact diagonal: InterpolatedLinearOperator with two
+    non-zero weights per row (W bidiagonal in a permuted column order, so W has full row rank and W B Wᵀ is PD) over
+    a base with non-zero off-diagonal entries, and ConstantMul / Sum / AddedDiag wrappers of it.  Tag `approxdiag`."""
+    from linear_operator.operators import (
+        AddedDiagLinearOperator, ConstantMulLinearOperator, DenseLinearOperator, DiagLinearOperator,
+        InterpolatedLinearOperator, SumLinearOperator, ToeplitzLinearOperator,
+    )
+    batch = tuple(batch)
+    nb = n + 1
+    out = []
+
+    def gen(base_kind):
+        perm = rng.sample(range(nb), nb)
+        idx = torch.tensor([[perm[i], perm[i + 1]] for i in range(n)]).expand(*batch, n, 2).contiguous()
+        val = C.ri(rng, (*batch, n, 2), 1, 2, dtype)
+        if base_kind == "Dense":
+            raw = C.psd_int(rng, batch, nb, dtype)
+            B = raw
+        else:
+            raw = C.toeplitz_col(rng, (*batch, nb), dtype)
+            raw[..., 1] = raw[..., 1].clamp_min(1.0)       # non-zero first off-diagonal
+            B = C.toeplitz_dense(raw)
+        W = C.interp_matrix(idx, val, nb)
+        A = W @ B @ W.mT
+        # the approximate diagonal (W √diag B)² must differ from the exact one in every batch member
+        apx = (W @ torch.diagonal(B, dim1=-1, dim2=-2).sqrt().unsqueeze(-1)).squeeze(-1) ** 2
+        ex = torch.diagonal(A, dim1=-1, dim2=-2)
+        differs = bool((((apx - ex).abs() / ex).max(-1)[0] > 0.05).all())
+        ok_mat = A if differs else torch.eye(n, dtype=dtype)   # identity fails the gap test => regenerate
+        return ok_mat, A, raw, idx, val
+
+    for base_kind in ("Dense", "Toeplitz"):
+        _, A, raw, idx, val = _retry_pd(lambda bk=base_kind: gen(bk))
+        sfx = "" if base_kind == "Dense" else "(Toeplitz)"
+
+        def mk_i(c, raw=raw, idx=idx, val=val, A=A, base_kind=base_kind):
+            s, t = c(raw), c(val)
+            b = DenseLinearOperator(s) if base_kind == "Dense" else ToeplitzLinearOperator(s)
+            return InterpolatedLinearOperator(b, idx.clone(), t, idx.clone(), t.clone()), A, [s, t]
+        kc = C.ri(rng, batch, 2, 3, dtype)
+        E = C.psd_int(rng, batch, n, dtype)
+        dd = C.ri(rng, (*batch, n), 1, 3, dtype)
+
+        def mk_cm(c, mk_i=mk_i, kc=kc):
+            o, a, ts = mk_i(c)
+            k = c(kc)
+            return ConstantMulLinearOperator(o, k), a * kc.unsqueeze(-1).unsqueeze(-1), ts + [k]
+
+        def mk_sum(c, mk_i=mk_i, E=E):
+            o, a, ts = mk_i(c)
+            e = c(E)
+            return SumLinearOperator(o, DenseLinearOperator(e)), a + E, ts + [e]
+
+        def mk_sumrev(c, mk_i=mk_i, E=E):
+            o, a, ts = mk_i(c)
+            e = c(E)
+            return SumLinearOperator(DenseLinearOperator(e), o), a + E, ts + [e]
+
+        def mk_cmsum(c, mk_sum=mk_sum, kc=kc):
+            o, a, ts = mk_sum(c)
+            k = c(kc)
+            return ConstantMulLinearOperator(o, k), a * kc.unsqueeze(-1).unsqueeze(-1), ts + [k]
+
+        def mk_sumcm(c, mk_cm=mk_cm, E=E):
+            o, a, ts = mk_cm(c)
+            e = c(E)
+            return SumLinearOperator(o, DenseLinearOperator(e)), a + E, ts + [e]
+
+        def mk_ad(c, mk_i=mk_i, dd=dd):
+            o, a, ts = mk_i(c)
+            d = c(dd)
+            return AddedDiagLinearOperator(o, DiagLinearOperator(d)), a + torch.diag_embed(dd), ts + [d]
+        makers = [(f"Interpolated[pd]{sfx}", mk_i), (f"ConstantMul(Interpolated[pd]{sfx})", mk_cm),
+                  (f"Sum(Interpolated[pd]{sfx},Dense)", mk_sum)]
+        if base_kind == "Dense":
+            makers += [("Sum(Dense,Interpolated[pd])", mk_sumrev), ("ConstantMul(Sum(Interpolated[pd],Dense))", mk_cmsum),
+                       ("Sum(ConstantMul(Interpolated[pd]),Dense)", mk_sumcm), ("AddedDiag(Interpolated[pd],Diag)", mk_ad)]
+        for nm, mk in makers:
+            it = C.Inst(nm, mk, psd=True)
+            it.tags.add("approxdiag")
+            out.append(it)
+    return out
+
+
+def pd_variants(rng, dtype, batch, n):
+    """Positive definite instances of the classes the shared catalogue only has as singular PSD (where only the direct
+    methods can be asked): every explicitly selectable `method=` is exercised on them too."""
+    from linear_operator.operators import (
+        DenseLinearOperator, KernelLinearOperator, LowRankRootLinearOperator, MaskedLinearOperator, MatmulLinearOperator,
+        MulLinearOperator, PsdSumLinearOperator, RootLinearOperator, ToeplitzLinearOperator,
+    )
+    batch = tuple(batch)
+    out = []
+
+    def full_root():
+        R = torch.tril(C.ri(rng, (*batch, n, n), -2, 2, dtype), -1) + torch.diag_embed(C.ri(rng, (*batch, n), 1, 3, dtype))
+        P = torch.eye(n, dtype=dtype)[rng.sample(range(n), n)]
+        R = R @ P                                   # non-singular, not triangular
+        return R @ R.mT, R
+    _, R1 = _retry_pd(full_root)
+    out.append(C.Inst("Root[full]", lambda c, R=R1: (lambda t: (RootLinearOperator(t), R @ R.mT, [t]))(c(R)), psd=True))
+    out.append(C.Inst("LowRankRoot[full]", lambda c, R=R1: (lambda t: (LowRankRootLinearOperator(t), R @ R.mT, [t]))(c(R)), psd=True))
+    out.append(C.Inst("Kernel[pd]", lambda c, x=R1: (lambda t: (KernelLinearOperator(t, t, C.poly_kernel), x @ x.mT, [t]))(c(x)), psd=True))
+    out.append(C.Inst("Matmul[pd]", lambda c, R=R1: (lambda s, t: (MatmulLinearOperator(DenseLinearOperator(s), DenseLinearOperator(t)), R @ R.mT, [s, t]))(c(R), c(R.mT.contiguous())), psd=True))
+
+    def had():
+        a, b = C.psd_int(rng, batch, n, dtype), C.psd_int(rng, batch, n, dtype)
+        return a * b, a, b
+    _, Ha, Hb = _retry_pd(had)
+    it = C.Inst("Mul[pd]", lambda c, a=Ha, b=Hb: (lambda s, t: (MulLinearOperator(DenseLinearOperator(s), DenseLinearOperator(t)), a * b, [s, t]))(c(a), c(b)), psd=True)
+    # a MulLinearOperator *is* the product of its factors' root decompositions: it equals the dense Hadamard product only
+    # when those roots are exact (factors on the Cholesky path) - same treatment as the cat_rows / add_low_rank operators
+    it.tags |= {"derived", "derived-cache"}
+    out.append(it)
+
+    def masked():
+        G = C.psd_int(rng, batch, n + 2, dtype)
+        keep = sorted(rng.sample(range(n + 2), n))
+        m = torch.zeros(n + 2, dtype=torch.bool)
+        m[keep] = True
+        return G[..., m, :][..., :, m], G, m
+    _, G, msk = _retry_pd(masked)
+    out.append(C.Inst("Masked[pd]", lambda c, G=G, m=msk: (lambda s: (MaskedLinearOperator(DenseLinearOperator(s), m.clone(), m.clone()), G[..., m, :][..., :, m], [s]))(c(G)), psd=True))
+    return out
+
+
 def own_instances(rng, dtype, batch, n):
     """Instances beyond the shared catalogue that reach class-specific factorization overrides."""
     from linear_operator.operators import (
@@ -249,6 +387,8 @@ def own_instances(rng, dtype, batch, n):
             it.tags.add(tg)
             it.tags.add("derived")
             out.append(it)
+    out += approx_diag_instances(rng, dtype, batch, n)
+    out += pd_variants(rng, dtype, batch, n)
     Bk = C.psd_int(rng, (*batch, 2), 2, dtype)
     Bk2 = C.psd_int(rng, (*batch, 2), 2, dtype)
     out.append(C.Inst("BlockDiag(Kronecker)", lambda c, a=Bk, b=Bk2: (lambda s, t: (BlockDiagLinearOperator(KroneckerProductLinearOperator(s, t)), C.block_diag_dense(C.kron(a, b)), [s, t]))(c(a), c(b)), psd=True))
@@ -453,6 +593,12 @@ def check_result(it, opname, method, r, path, mrds):
                     fails.append(f"stopped at rank {R.shape[-1]} < {k} with residual {float(tr.max()):.3g} > tolerance")
             if full and float(tr.abs().max()) > 2.5e-3:
                 fails.append(f"full-rank pivoted Cholesky residual {float(tr.abs().max()):.3g}")
+            if full and R.shape[-1] == N and "pivonly" not in it.tags:
+                # all N pivots were taken (no early stop): the factorization is complete, R Rᵀ = A to working precision
+                e = relerr(rec, A)
+                tolx = 1e-9 if dtype == torch.float64 else 2e-3
+                if e > tolx:
+                    fails.append(f"R Rᵀ of the complete (rank bound ≥ N, {N} pivots) pivoted Cholesky differs from A by {e:.3g} (rel)")
             return fails
         if full:
             e = relerr(rec, target)
@@ -809,7 +955,7 @@ def ops_for(it):
         ops += [("root", m) for m in ROOT_METHODS] + [("rootinv", m) for m in RINV_METHODS]
         ops += [("diag", m) for m in DIAG_METHODS]
     else:
-        ops += [("root", m) for m in ("cholesky", "symeig", "svd")] + [("diag", "symeig")]
+        ops += [("root", m) for m in ("cholesky", "symeig", "svd", "pivoted_cholesky", "diagonalization")] + [("diag", "symeig")]
     ops += [("eigh", None), ("eigvalsh", None), ("tl.eigh", None), ("tl.eigvalsh", None), ("svd", None), ("tl.svd", None)]
     if not singular and ("derived" in it.tags or it.name in ("Dense[psd]", "Toeplitz", "PsdSum")):
         ops.append(("pivchol", None))
@@ -1041,6 +1187,125 @@ def hetero_cells(chk):
                         chk.violation(cell, "; ".join(bad)[:400] + f" | A={A.tolist()}", {"A": A.tolist(), "jit": jit})
 
 
+def _spec_post_residuals(A, cands, tv):
+    """Σ_batch Σ_columns ‖A (R Rᵀ t) − t‖₂ for every candidate, straight from the definition (float64, per member)."""
+    P = cands.shape[0]
+    n = A.shape[-1]
+    Af = A.reshape(-1, n, n)
+    tf = tv.reshape(-1, n, tv.shape[-1])
+    out = []
+    for p in range(P):
+        Rf = cands[p].reshape(-1, n, cands.shape[-1])
+        tot = 0.0
+        for b in range(Af.shape[0]):
+            for c in range(tf.shape[-1]):
+                t = tf[b][:, c]
+                tot += float(torch.linalg.vector_norm(Af[b] @ (Rf[b] @ (Rf[b].T @ t)) - t))
+        out.append(tot)
+    return out
+
+
+def postprocess_cells(chk, lines, pending):
+    """`root_inv_decomposition(initial_vectors, test_vectors, method="lanczos")` with P > 1 probes
+    (`_postprocess_lanczos_root_inv_decomp`): the returned inverse root is one of the P candidates, the one with the
+    smallest residual (spec: from the definition; model: Lean `postprocessIndex` on the same candidates), and — when the
+    Krylov spaces are complete — an inverse root of A."""
+    from linear_operator.operators import DenseLinearOperator, ToeplitzLinearOperator
+    rng = chk.rng
+    quick = chk.tier == "quick"
+    plan = [((), 4, 2, 2), ((), 5, 3, 3), ((2,), 4, 2, 2), ((2,), 4, 3, 1), ((), 4, 2, 3)]
+    if not quick:
+        plan += [((2,), 5, 3, 3), ((3,), 4, 2, 2), ((2, 1), 4, 2, 2), ((), 6, 4, 4), ((), 5, 2, 1)] * 2
+    for batch, n, P, Pt in plan:
+        for kind in ("Dense", "Toeplitz"):
+            for rl in ("lt", "gt"):
+                if kind == "Dense":
+                    A = C.psd_int(rng, batch, n, torch.float64)
+                    mk = lambda A=A: DenseLinearOperator(A.clone())
+                else:
+                    col = C.toeplitz_col(rng, (*batch, n), torch.float64)
+                    A = C.toeplitz_dense(col)
+                    mk = lambda col=col: ToeplitzLinearOperator(col.clone())
+                if not _gap_ok(A):
+                    chk.count("postprocess:regenerated")
+                    continue
+                iv = C.ri(rng, (*batch, n, P), -3, 3, torch.float64)
+                # initial vectors must be non-zero and pairwise non-parallel (otherwise candidates coincide)
+                ivf = iv.reshape(-1, n, P)
+                gram = ivf.mT @ ivf
+                cos2 = gram ** 2 / (torch.diagonal(gram, dim1=-1, dim2=-2).unsqueeze(-1) * torch.diagonal(gram, dim1=-1, dim2=-2).unsqueeze(-2)).clamp_min(1e-30)
+                if bool((torch.diagonal(gram, dim1=-1, dim2=-2) == 0).any()) or bool(((cos2 - torch.eye(P, dtype=torch.float64)).abs().max() > 0.98)):
+                    chk.count("postprocess:regenerated")
+                    continue
+                # no (near) breakdown: every initial vector generates a Krylov space of full dimension min(mrds, n) in its
+                # batch member (an initial vector that is an eigenvector makes the coupled multi-column Lanczos loop
+                # divide by a vanishing beta for that column: NaN candidates — C09's breakdown subject, not claimed here)
+                kdim = min(_mrds(n, rl), n)
+                Af_ = A.reshape(-1, n, n)
+                krylov_ok = True
+                for b_ in range(Af_.shape[0]):
+                    for p_ in range(P):
+                        cols = [ivf[b_][:, p_]]
+                        for _ in range(kdim - 1):
+                            cols.append(Af_[b_] @ cols[-1])
+                        Km = torch.stack([c_ / c_.norm() for c_ in cols], -1)
+                        sv = torch.linalg.svdvals(Km)
+                        if float(sv[-1] / sv[0]) < 1e-4:
+                            krylov_ok = False
+                if not krylov_ok:
+                    chk.count("postprocess:regenerated-krylov-breakdown")
+                    continue
+                tv = C.ri(rng, (*batch, n, Pt), -3, 3, torch.float64)
+                if bool((tv.reshape(-1, n, Pt).abs().sum(-2) == 0).any()):
+                    chk.count("postprocess:regenerated")
+                    continue
+                mr = _mrds(n, rl)
+                seed = rng.randrange(2 ** 31)
+                cell = f"C06/postprocess/{kind}[b={batch}|n={n}]/P={P}/Pt={Pt}/mrds={rl}"
+                payload = {"A": A.tolist(), "iv": iv.tolist(), "tv": tv.tolist(), "mrds": mr, "kind": kind}
+                chk.case(f"{cell} seed={seed} A={A.flatten().tolist()[:36]} iv={iv.flatten().tolist()[:20]}", nontrivial=True)
+                chk.count("postprocess:cases")
+                try:
+                    with Env(0, mr, True, seed):
+                        cands = mk()._root_inv_decomposition(iv.clone())
+                    with Env(0, mr, True, seed):
+                        res = mk().root_inv_decomposition(initial_vectors=iv.clone(), test_vectors=tv.clone(), method="lanczos")
+                        R = dense_of(res.root)
+                except Exception as e:
+                    chk.violation(cell, f"raised {type(e).__name__}: {e}"[:300] + f" | A={A.tolist()}", payload)
+                    continue
+                if cands.dim() != len(batch) + 3 or cands.shape[0] != P:
+                    chk.corr_break(cell, f"_root_inv_decomposition returned shape {tuple(cands.shape)} for {P} initial vectors", payload)
+                    continue
+                resid = _spec_post_residuals(A, cands, tv)
+                order = sorted(range(P), key=lambda p: (resid[p], p))
+                best = order[0]
+                margin = (resid[order[1]] - resid[best]) / max(resid[order[1]], 1e-300)
+                if resid[order[1]] - resid[best] < 1e-10 * float(tv.abs().sum()):
+                    margin = 0.0        # difference at rounding level: the choice is not claimed
+                which = [p for p in range(P) if R.shape == cands[p].shape and torch.equal(R, cands[p])]
+                bad = []
+                if not which:
+                    bad.append(f"the returned inverse root (shape {tuple(R.shape)}) is none of the {P} candidates of shape {tuple(cands.shape[1:])}")
+                elif margin > 1e-3 and best not in which:
+                    bad.append(f"returned candidate {which[0]} with residual {resid[which[0]]:.6g}, but candidate {best} has the smallest residual {resid[best]:.6g} (all: {[round(x, 6) for x in resid]})")
+                if rl == "gt" and which:
+                    e = relerr(R @ R.mT, torch.linalg.inv(A))
+                    if e > 2e-4:
+                        bad.append(f"complete Krylov space: R Rᵀ differs from A⁻¹ by {e:.3g}")
+                chk.count("postprocess:margin>1e-3" if margin > 1e-3 else "postprocess:margin-small")
+                if bad:
+                    chk.violation(cell, "; ".join(bad)[:420] + f" | A={A.tolist()} iv={iv.tolist()} tv={tv.tolist()}", payload)
+                if which and margin > 1e-6:
+                    k = cands.shape[-1]
+                    Bn = max(1, int(torch.Size(batch).numel()))
+                    mats = [fmt_mat(m.tolist()) for m in A.reshape(-1, n, n)] + [fmt_mat(m.tolist()) for m in tv.reshape(-1, n, Pt)]
+                    for p_ in range(P):
+                        mats += [fmt_mat(m.tolist()) for m in cands[p_].reshape(-1, n, k)]
+                    lines.append(f"post {n} {k} {Pt} {P} {Bn} " + " ".join(mats))
+                    pending.append((cell, ("str", str(which[0])), bool(bad), payload))
+
+
 def translator_crosscheck(chk, facts):
     import linear_operator.operators as O
     from linear_operator import settings
@@ -1153,9 +1418,13 @@ def run(chk, only=None):
     exact_cells(chk, lines, pending)
     diag_svd_cells(chk)
     hetero_cells(chk)
+    postprocess_cells(chk, lines, pending)
     quick = chk.tier == "quick"
+    only = only or os.environ.get("C06_ONLY")          # development aid: restrict to instances whose name contains …
     for pi, (dtype, batch, n, names, do_wrap) in enumerate(build_plan(chk)):
         insts = plan_instances(chk, chk.seed, pi, dtype, batch, n, names, do_wrap)
+        if only:
+            insts = [it for it in insts if any(s in it.name for s in only.split(";"))]
         for it in insts:
             it.n0, it.plan = n, pi
             N = it.dense.shape[-1]
